@@ -40,6 +40,12 @@ def run(ctx, res):
     res.guard(RR.rule_frame_counter, prog, res)
     res.guard(RR.rule_consume, prog, res, "video_sink_thread", "append")
     res.guard(RR.rule_consume, prog, res, "process_data", "iterate")
+    res.guard(RR.rule_drain_after_stop, prog, res, "video_sink_thread", {"storage_append"})
+    res.guard(RR.rule_drain_after_stop, prog, res, "video_filter_thread", {"process_data"})
+    from ..channelarith import rule_linear
+    res.guard(rule_linear, prog, res)
+    res.require_min("R-LIN", 15)
+    res.require_min("R-DRAIN", 2)
     # the channel clauses every flush loop depends on (anchored in channel.c)
     res.guard(rule_empty_drained, prog, res)
     res.guard(rule_cursor_pair, prog, res, LockAnalysis(prog))
